@@ -382,6 +382,28 @@ def _wire_async():
         await asyncio.sleep(150.0)
         await r.spa.async_get_watercare()
         await r.spa.async_press(2)
+        # a refresh whose answer loses one non-final segment (the transfer is run again) while partial updates keep being
+        # acknowledged, then writes through the plain (blocking-style) setter of an item
+        nseg = [0]
+
+        def lose_third(src, dst, data):
+            if src == SPA_ADDR and b"STATV" in data:
+                nseg[0] += 1
+                if nseg[0] == 3:
+                    return ["drop"]
+            return None
+
+        r.net.fates = lose_third
+        await r.spa.struct.get(r.spa._protocol, r.spa._get_status_block_handler_func)
+        r.net.fates = None
+        if nseg[0] < 3:
+            raise core.HarnessError("C16 wire: the refresh had fewer than three segments")
+        await r.spa.async_get_watercare()
+        tu_ = acc["TempUnits"]
+        for _ in range(3):
+            tu_.value = "F" if tu_.value == "C" else "C"
+            await asyncio.sleep(1.5)
+            await r.spa.async_get_watercare()
         # the OS reports a failed send (ICMP unreachable) for one watercare query and one key press: the endpoint
         # stays open, the retry goes out, and the numbering carries on from where it was
         for verb in (b"GETWC", b"SPACK"):
@@ -705,7 +727,7 @@ def run(ctx):
         for start in ((0, 191), (0, 254)):
             st = explore.explore(ctx, _write_thread_job, (plan, start), bound - 1, label=f"writers{plan}@{start}")
             wtotal += st["executions"]
-            explore.fold_stats(ctx, st, prefix="threads_")
+            explore.fold_stats(ctx, st, prefix="writers_")
             if len(st["end"]) < 2 and not st["stopped_on_violation"]:
                 raise core.HarnessError("writer exploration produced a single schedule - vacuous")
     ctx.set("writer_thread_schedules", wtotal)
